@@ -276,7 +276,7 @@ fn cmd_run(args: &BTreeMap<String, String>) -> i32 {
                         if let Some(wn) = watch {
                             if x.id != wn { continue; }
                             let o = &x.obs;
-                            let line = format!("n{} {} {:?} t{} lead{} commit{} applied{} pers{} last{}({}) first{} unst@{}+{} snap{} | sm{} q{} out{} wq{} | dur t{} c{} last{} trunc{} app{}",
+                            let line = format!("rs{} n{} {} {:?} t{} lead{} commit{} applied{} pers{} last{}({}) first{} unst@{}+{} snap{} | sm{} q{} out{} wq{} | dur t{} c{} last{} trunc{} app{}", o.read_states_len,
                                 x.id, if x.running() {"up"} else {"DOWN"}, o.role, o.term, o.leader_id, o.commit, o.applied, o.persisted, o.last_index, o.last_term, o.first_index,
                                 o.unst_offset, o.unst_len, o.snap_index, x.sm.applied, x.apply_q.len(), x.outstanding.len(), x.disk.wq.len(),
                                 x.disk.durable.hs.term, x.disk.durable.hs.commit, x.disk.durable.last_index(), x.disk.durable.trunc_index, x.disk.durable.app.applied);
